@@ -11,6 +11,7 @@ import IronCalc.Eval.Memo
       P<val>                 plain cell
       F<expr>                formula cell
   val : n<16 hex digits of the f64 bits> | s<hex utf8> | bT | bF | e<name> | z
+  (`R<idx>~<f>,` and `S<idx>.…~<f>,` carry `$`-marker flags for the harness; ignored here)
   expr: L<val>, | R<idx>, | B<op><expr><expr> | I<expr><expr><expr> | E<expr><expr> | Q<expr>
         | S<idx>.<idx>…,          (prefix notation; `,` terminates atoms)
   op  : + - * /
@@ -73,7 +74,7 @@ def parseExpr : Nat → List Char → Option (Expr Float × List Char)
       (parseVal (String.ofList a)).map fun v => (.lit v, r)
     | 'R' :: rest =>
       let (a, r) := untilComma rest
-      (String.ofList a).toNat?.map fun n => (.ref n, r)
+      (String.ofList (a.takeWhile (· ≠ '~'))).toNat?.map fun n => (.ref n, r)
     | 'B' :: o :: rest => do
       let op ← parseOp o
       let (l, r1) ← parseExpr fuel rest
@@ -93,7 +94,7 @@ def parseExpr : Nat → List Char → Option (Expr Float × List Char)
       pure (.iserror a, r1)
     | 'S' :: rest =>
       let (a, r) := untilComma rest
-      let parts := (String.ofList a).splitOn "."
+      let parts := (String.ofList (a.takeWhile (· ≠ '~'))).splitOn "."
       (parts.mapM fun (p : String) => p.toNat?).map fun cs => (.sum cs, r)
     | _ => none
 
